@@ -100,7 +100,10 @@ Fixpoint print_toks (e : expr string) (prec : nat) : list token :=
   | EUSub a => TOp OpSub :: print_toks a prec_usub
   | EBin o l r =>
       let local_prec := op_prec o in
-      let s := (print_toks l local_prec ++ [TSp; TOp o; TSp] ++ print_toks r (local_prec + 1))%list in
+      (* comparisons chain in Python (a == b == c means a == b and b == c): their left operand is printed one
+         level up, like every right operand *)
+      let lhs_prec := if is_cmp o then local_prec + 1 else local_prec in
+      let s := (print_toks l lhs_prec ++ [TSp; TOp o; TSp] ++ print_toks r (local_prec + 1))%list in
       if Nat.ltb local_prec prec then (TLP :: s ++ [TRP])%list else s
   | EWin x acc =>
       (TId x :: TLB ::
@@ -114,6 +117,25 @@ Fixpoint print_toks (e : expr string) (prec : nat) : list token :=
   | EExtern f args =>
       (TId f :: TLP :: sep_by comma_sp (map (fun a => print_toks a 0) args) ++ [TRP])%list
   | ECfg c f => [TId c; TDot; TId f]
+  end.
+
+(* _print_expr as it was before commit "fix: the printer must parenthesise a comparison that is the left operand of
+   a comparison" (left operand always at local_prec), on the parsed fragment.  Kept only for the regression
+   theorem C17_expr_roundtrip_prefix_refuted. *)
+Fixpoint print_toks_prefix (e : expr string) (prec : nat) : list token :=
+  match e with
+  | ERead x idx =>
+      TId x :: match idx with
+               | [] => []
+               | _ => (TLB :: sep_by comma_sp (map (fun i => print_toks_prefix i 0) idx) ++ [TRB])%list
+               end
+  | EConst neg lit => if neg then [TOp OpSub; TLit lit] else [TLit lit]
+  | EUSub a => TOp OpSub :: print_toks_prefix a prec_usub
+  | EBin o l r =>
+      let local_prec := op_prec o in
+      let s := (print_toks_prefix l local_prec ++ [TSp; TOp o; TSp] ++ print_toks_prefix r (local_prec + 1))%list in
+      if Nat.ltb local_prec prec then (TLP :: s ++ [TRP])%list else s
+  | _ => []
   end.
 
 (* the string _print_expr(e, env, prec) returns, names already resolved *)
@@ -234,18 +256,14 @@ Definition parse_toks (ts : list token) : option (expr string) :=
 Definition parse_expr (ts : list token) : option (expr string) := parse_toks (strip ts).
 
 (* ------------------------------------------------------------------ the fragment the round trip is about *)
-Definition is_cmp_expr (e : expr string) : bool :=
-  match e with EBin o _ _ => is_cmp o | _ => false end.
-
-(* well-formed for the round trip: inside the parsed fragment, literals are non-negative (a negative constant
-   prints as "-" literal, which reads back as a unary minus), and the left operand of a comparison is not itself
-   a comparison (the printer leaves it without parentheses, which Python reads as a chain) *)
+(* well-formed for the round trip: inside the parsed fragment, and literals are non-negative (a negative constant
+   prints as "-" literal, which reads back as a unary minus: same value, other tree) *)
 Fixpoint wf_expr (e : expr string) : bool :=
   match e with
   | ERead _ idx => forallb wf_expr idx
   | EConst neg _ => negb neg
   | EUSub a => wf_expr a
-  | EBin o l r => wf_expr l && wf_expr r && negb (is_cmp o && is_cmp_expr l)
+  | EBin o l r => wf_expr l && wf_expr r
   | _ => false
   end.
 
